@@ -464,6 +464,15 @@ func compareRuns(c Case, dry, nor *Obs, vd *verdict) {
 		// script with any timeout is left out, one with an expired deadline always)
 		errSeen := c.Mode != "cobra" || c.Verbosity != "error"
 		hasTimeout := c.Scripts[si].Timeout != "" || c.DefTimeout != ""
+		// ratelimitWait's own timeout argument is a deadline as well (its HEAD request
+		// fails with it on a slow machine): same rule
+		for _, st := range c.Scripts[si].Stmts {
+			for _, cl := range st.Calls {
+				if cl == "image.ratelimitWait" || cl == "manifest:ratelimitWait" {
+					hasTimeout = true
+				}
+			}
+		}
 		if diffAt < 0 && c.Scripts[si].Timeout != "1ms" && (errSeen || !hasTimeout) &&
 			si < len(dry.ProbeReached) && si < len(nor.ProbeReached) && dry.ProbeReached[si] != nor.ProbeReached[si] {
 			vd.fail(evid.V("dryrun-progress-differs-from-normal-run", "read-only script %s: the dry run got to statement boundary %d, the normal run on identical state to %d (same messages)",
